@@ -92,7 +92,9 @@ type Must struct {
 	Depth int
 	// FollowGo: `go f()` counts as reaching f's body (the work is handed to a goroutine that always does it)
 	FollowGo bool
-	memo     map[*ssa.Function]int // 0 unknown, 1 in progress, 2 yes, 3 no
+	// Removed: edges that are not taken into account (exceptional exits the rule allows)
+	Removed EdgeFilter
+	memo    map[*ssa.Function]int // 0 unknown, 1 in progress, 2 yes, 3 no
 }
 
 func NewMust(p *Program, depth int, pred func(ssa.Instruction) bool) *Must {
@@ -148,7 +150,7 @@ func (m *Must) fn(fn *ssa.Function, depth int) bool {
 		return false
 	}
 	m.memo[fn] = 1
-	bad := MustPass(fn, nil, func(in ssa.Instruction) bool { return m.instr(in, depth) }, nil)
+	bad := MustPass(fn, nil, func(in ssa.Instruction) bool { return m.instr(in, depth) }, m.Removed)
 	if bad == nil {
 		m.memo[fn] = 2
 		return true
